@@ -583,7 +583,7 @@ func runFuzz(cfg propCfg, counters map[string]int64) (viol int, replayPath strin
 			ft = 60 * time.Second
 		}
 		cmd := exec.Command("go", "test", "-vet=off", "-tags", "verif", "-run", "^$", "-fuzz", "^"+target+"$",
-			"-fuzztime", ft.String(), "-test.fuzzcachedir", filepath.Join(verifDir(), "bin", "fuzzcache"), "./props")
+			"-fuzztime", ft.String(), "./props")
 		cmd.Dir = verifDir()
 		cmd.Env = append(goEnv(), "VERIF_DIR="+verifDir())
 		out, err := cmd.CombinedOutput()
